@@ -203,6 +203,9 @@ def scenarios_c15(ctx, binpath, count):
     sc.append(("rooms:both", ["--num-threads", "1", "--rooms", "9,9,9", "--rooms-file", okrooms, goodp], dict(fl, rooms_both=True), {}))
     for t in ["0", "-1", "x", "", "1.5", "99999999999"]:
         sc.append(("threads:%r" % t, ["--num-threads", t, goodp], dict(fl, args_ok=False), {}))
+    # every thread count >= 1 is a valid option value (C10 / C03 quantify over all of them): absurd ones must not crash the program
+    for t in ["40000", "4000000000"]:
+        sc.append(("threads:huge=%s" % t, ["--num-threads", t, goodp], None, {"file": goodp}))
     sc.append(("input:missing", ["--num-threads", "1", os.path.join(d, "missing.json")], dict(fl, input_open_ok=False), {}))
     sc.append(("input:directory", ["--num-threads", "1", d], None, {"file": d}))
     sc.append(("args:none", [], dict(fl, args_ok=False), {}))
